@@ -12,7 +12,8 @@ SPEC = {
         "Sema.C10.C10_wf_meaning", "Sema.C10.C10_init", "Sema.C10.C10_step", "Sema.C10.C10_history_from",
         "Sema.C10.C10_history", "Sema.C10.C10_reserved_ids_rejected", "Sema.C10.C10_defect13_witness",
         "Sema.C10.C10_stream_complete", "Sema.C10.C10_stream_live", "Sema.C10.C10_stream_vectors",
-        "Sema.C10.C10_shard_step", "Sema.C10.C10_withheld_change_witness",
+        "Sema.C10.C10_shard_step", "Sema.C10.C10_shard_history_from", "Sema.C10.C10_shard_history",
+        "Sema.C10.C10_withheld_change_witness",
     ],
     "trusted_base": [
         "SemaModel/C10/Model.lean + SemaModel/C03/Model.lean: hand-written model of insertUpdateDelete / insertSinglePoint / robustPrune / removeInboundEdges / EdgeScan / pruneDeleteNeighbour / greedySearch / DistSet; tied to the code by the correspondence above, not by translation",
